@@ -16,6 +16,7 @@ def _root_.AwsVerif.ByteBuf.Op.resets : Op → Option Nat
   | .cleanUpSecure b => some b
   | .readAndFillBuffer _ b => some b
   | .initFromFile b _ _ _ => some b
+  | .normalizeSep b => some b
   | _ => none
 
 /-- the first `(s.bufs i).len` bytes of buffer `i` are the same in `s'`, and its length did not shrink -/
@@ -415,6 +416,11 @@ theorem step_prefix {s s' : State} {op : Op} {r : Res} (hw : WF s) (e : step s o
     simp only [step] at e
     obtain ⟨⟨e1, v⟩, _, e⟩ := bind_ok e
     cases e; exact PrefixKept.refl _ _
+  | normalizeSep b =>
+    simp only [step] at e
+    obtain ⟨h1, hcore, e⟩ := bind_ok e
+    cases e
+    exact prefixKept_setBufMem (m' := { s.mem with heap := h1 }) hw (bufNormalizeSep_spec (hw.bufOk b) hcore).1 (fun h => (hne rfl h).elim)
   | hashIgnoreCase c =>
     simp only [step] at e
     obtain ⟨v, _, e⟩ := bind_ok e
